@@ -293,6 +293,10 @@ def run_group(pid, g, scratch, tier, repo, keep_dir=None, trace=False, only_prop
             if results is None:
                 last_err = "cbmc gave no result list (rc=%d): %s" % (rc, "; ".join(errors)[-1500:] or so[-600:])
                 continue
+            if any(r.get("status") == "ERROR" for r in results) and be is not backends[-1]:
+                # seen with CaDiCaL under the memory limit: some obligations come back ERROR -> let the next back end decide
+                last_err = "cbmc reported status ERROR for some obligations (%s)" % (" ".join(be) or "default sat")
+                continue
             out = (results, warnings)
             res["backend"] = "sat/" + (be[1] if be else "minisat(default)") if not be or be[0] == "--sat-solver" else be[0]
             break
@@ -833,7 +837,7 @@ def build_evidence(pid, tier, seed, mod, gsum, nat_sum, n_obl, n_ok, n_unb, boun
         for c in g.get("checker_cmds", [])[:3]:
             cmds.append(c)
     ev = {
-        "property_id": pid, "tier": tier, "seed": seed, "level": "proof",
+        "property_id": pid, "tier": tier, "seed": seed, "level": getattr(mod, "LEVEL", "proof"),
         "coverage": {
             "obligations": n_obl, "discharged": n_ok,
             "proved_unbounded": n_unb,
@@ -857,6 +861,9 @@ def build_evidence(pid, tier, seed, mod, gsum, nat_sum, n_obl, n_ok, n_unb, boun
         "violations": vio, "wall_s": round(wall, 2)}
     if nat_sum:
         ev["coverage"]["evaluations"] = sum(n.get("cases", 0) for n in nat_sum)
+        ev["coverage"]["distinct_nontrivial"] = sum(n.get("distinct", 0) for n in nat_sum)
+        ev["coverage"]["rule"] = ("native stand-ins only (see native_standins[].bound): cases are enumerated exhaustively or listed explicitly by the program; "
+                                  "a case counts as distinct and non-trivial by the program's own DISTINCT rule (e.g. more than one token / arc / word, non-empty language)")
     return ev
 
 
